@@ -63,6 +63,12 @@ func main() {
 			}
 		},
 	}
+	if c.Replay != "" {
+		if !chain.Replay(c, opts) {
+			replayBoundary(c)
+		}
+		c.Finish()
+	}
 	type lat struct{ mat, allow, require, eph uint64 }
 	lattice := []lat{{0, 100, 101, 102}, {1, 2, 4, 3}, {3, 1, 3, 1}, {1, 3, 6, 4}, {0, 0, 1, 0}, {3, 0, 1, 2}}
 	if c.Thorough {
